@@ -81,7 +81,7 @@ class Locality(Family):
             for m in ms:
                 for n in ((2,) if adaptive else (2, 3)):
                     ps = params_for(s, tier)
-                    ps = [q for q in ps if "a" not in q or int(q["a"]) <= n][: ((1 if adaptive else 2) if tier == "quick" else (2 if adaptive else 4))]
+                    ps = [q for q in ps if "a" not in q or int(q["a"]) <= n][: ((1 if adaptive else 2) if tier == "quick" else (1 if adaptive else 4))]
                     for p in ps:
                         js = (0, m - 1) if adaptive else (0, 2, m - 1)
                         if adaptive and tier == "quick":
@@ -149,7 +149,7 @@ class Linearity(Family):
 
 
 META = {
-    "budget_s": {"quick": 300, "thorough": 1500},
+    "budget_s": {"quick": 300, "thorough": 2100},
     "explanation": "Two (or four) executions of the real strategy inside ONE symbolic run: the map parameters (a, b), "
                    "(c, d), the changed average and the second series are solver variables, so 'commutes for every "
                    "real map' is literally the quantifier z3 decides. In exact arithmetic the commutation also holds "
